@@ -411,6 +411,7 @@ void add_type(Node *node);
 //
 
 void codegen(Obj *prog, FILE *out);
+bool has_flonum(Type *ty, int lo, int hi, int offset);
 int align_to(int n, int align);
 
 //
